@@ -660,6 +660,16 @@ func (bs *blockState) fieldOf(base Term, st *types.Struct, field int, pos token.
 			return Term{"(" + f.Sel + " " + base.S + ")", f.Sort}
 		}
 	}
+	if isOpaqueSort(base.Sort) || base.Sort == "Header" {
+		f := st.Field(field)
+		acc := "fld_" + sanitize(base.Sort) + "_" + f.Name()
+		fs := ex.P.sorts.sortOf(f.Type())
+		if _, ok := ex.P.sig.Funs[acc]; !ok {
+			ex.P.sig.Funs[acc] = &FunSig{Args: []string{base.Sort}, Ret: fs}
+			ex.P.sorts.decls = append(ex.P.sorts.decls, fmt.Sprintf("(declare-fun %s (%s) %s)", acc, base.Sort, fs))
+		}
+		return Term{"(" + acc + " " + base.S + ")", fs}
+	}
 	ex.unsup(pos, "field %d of sort %s", field, base.Sort)
 	return ex.fresh("fld", ex.P.sorts.sortOf(st.Field(field).Type()))
 }
